@@ -93,6 +93,9 @@ type Config struct {
 	// another than the first enabled thread when the running one blocks, and non-default data choices) costs one
 	// deviation (Emmi/Qadeer/Rakamaric delay bounding); keeps many-thread harnesses polynomial in the bound
 	DelayBounding bool
+	// AccessPoints: every logged access (access build) is a scheduling point as well. For tiny scenarios around code
+	// without synchronisation (a function with a hoisted scratch variable called from two goroutines).
+	AccessPoints bool
 }
 
 type opKind uint8
